@@ -736,6 +736,134 @@ pub fn generate(repo: &PathBuf) -> Result<String, String> {
         let f = impl_fn(&file, "NodeRegistry", None, "from_json")?;
         s.push_str(&format!("def registryFromJsonSites : List String := {}\n\n", lean_strs(&sites(&f.block, &no_env, false, false))));
     }
+    // --- ant-cli wallet/fs.rs: names and contents read from the wallets folder
+    {
+        let rel = "ant-cli/src/wallet/fs.rs";
+        let file = parse_file(&repo.join(rel))?;
+        let ext = file
+            .items
+            .iter()
+            .find_map(|it| match it {
+                syn::Item::Const(c) if c.ident == "ENCRYPTED_PRIVATE_KEY_EXT" => match &*c.expr {
+                    syn::Expr::Lit(l) => match &l.lit {
+                        syn::Lit::Str(st) => Some(st.value()),
+                        _ => None,
+                    },
+                    _ => None,
+                },
+                _ => None,
+            })
+            .ok_or("wallet/fs.rs: ENCRYPTED_PRIVATE_KEY_EXT is not a string constant")?;
+        s.push_str(&format!("/-- {rel}: `ENCRYPTED_PRIVATE_KEY_EXT` = {ext:?} -/\ndef walletExt : List Nat := [{}]\n", ext.bytes().map(|b| b.to_string()).collect::<Vec<_>>().join(", ")));
+        let f = free_fn(&file, "filter_wallet_file_extension")?;
+        let body = toks(&f.block);
+        let uses_replace = body == "{wallet_file.replace(ENCRYPTED_PRIVATE_KEY_EXT,\"\")}";
+        s.push_str(&format!("/-- `filter_wallet_file_extension` is `wallet_file.replace(ENCRYPTED_PRIVATE_KEY_EXT, \"\")` -/\ndef filterUsesReplace : Bool := {}\n", lean_bool(uses_replace)));
+        s.push_str(&format!("def walletFilterSites : List String := {}\n", lean_strs(&sites(&f.block, &no_env, false, false))));
+        let f = free_fn(&file, "get_wallet_files")?;
+        let c = calls_in_block(&f.block);
+        if !(c.methods.iter().any(|m| m == "into_string") && c.paths.iter().any(|p| p == "RewardsAddress::from_hex") && c.paths.iter().any(|p| p == "filter_wallet_file_extension")) {
+            return Err("get_wallet_files: expected into_string().ok(), filter_wallet_file_extension and RewardsAddress::from_hex".into());
+        }
+        s.push_str(&format!("def walletFilesSites : List String := {}\n", lean_strs(&sites(&f.block, &no_env, false, false))));
+        // get_wallet_selection: `if idx < 1 || idx > files.len() { return Err }` then `files[idx - 1]`
+        let f = free_fn(&file, "get_wallet_selection")?;
+        let mut cf = CondFinder { conds: vec![] };
+        cf.visit_block(&f.block);
+        let mut low = None;
+        let mut high = None;
+        for c in &cf.conds {
+            if let syn::Expr::Binary(b) = c {
+                if matches!(b.op, syn::BinOp::Or(_)) {
+                    for side in [&b.left, &b.right] {
+                        if let syn::Expr::Binary(x) = &**side {
+                            if toks(&x.left) == "selected_index" {
+                                if is_len_call(&x.right) {
+                                    high = Some(cmp_name(&x.op, false)?);
+                                } else {
+                                    low = Some((cmp_name(&x.op, false)?, eval_const(&x.right, &no_env)?));
+                                }
+                            }
+                        }
+                    }
+                }
+            }
+        }
+        let (lc, ln) = low.ok_or("get_wallet_selection: no `selected_index <cmp> N` bound check")?;
+        let hc = high.ok_or("get_wallet_selection: no `selected_index <cmp> wallet_files.len()` bound check")?;
+        let mut ixf = IndexFinder { found: vec![], lens: 0 };
+        ixf.visit_block(&f.block);
+        if ixf.found.len() != 1 || toks(&ixf.found[0].expr) != "wallet_files" {
+            return Err("get_wallet_selection: expected exactly one index into wallet_files".into());
+        }
+        if !toks(&f.block).contains("parse::<usize>()") {
+            return Err("get_wallet_selection: the selection is not parsed as usize".into());
+        }
+        let (t, _) = aexp(&ixf.found[0].index, &[("selected_index".to_string(), 64)]).map_err(|e| format!("get_wallet_selection: {e}"))?;
+        s.push_str(&format!("/-- `get_wallet_selection`: the two rejecting bound checks and the index expression `{}` (var 0 = selected_index: usize) -/\ndef selectLowReject : Cmp × Nat := (.{lc}, {ln})\ndef selectHighReject : Cmp := .{hc}\ndef selectIndexExpr : AExp := {t}\n", toks(&ixf.found[0].index)));
+        s.push_str(&format!("def walletSelectionSites : List String := {}\n", lean_strs(&sites(&f.block, &no_env, true, true))));
+        let f = free_fn(&file, "list_wallets")?;
+        s.push_str(&format!("def walletListSites : List String := {}\n", lean_strs(&sites(&f.block, &no_env, false, false))));
+        // select_wallet_address: `wallet_files[0]` only in the arm for exactly one file
+        let f = free_fn(&file, "select_wallet_address")?;
+        let mut ixf = IndexFinder { found: vec![], lens: 0 };
+        ixf.visit_block(&f.block);
+        let guarded = ixf.found.len() == 1 && toks(&f.block).contains("1=>Ok(filter_wallet_file_extension(&wallet_files[0]))");
+        let mut st = sites(&f.block, &no_env, guarded, false);
+        if !guarded && ixf.found.is_empty() {
+            st.retain(|x| x != "index");
+        }
+        s.push_str(&format!("/-- `select_wallet_address` indexes `wallet_files[0]` only in the arm for `wallet_files.len() == 1` -/\ndef selectSingleGuarded : Bool := {}\ndef walletSelectAddressSites : List String := {}\n", lean_bool(guarded || ixf.found.is_empty()), lean_strs(&st)));
+        let f = free_fn(&file, "load_private_key")?;
+        s.push_str(&format!("def walletLoadKeySites : List String := {}\n", lean_strs(&sites(&f.block, &no_env, false, false))));
+        let f = free_fn(&file, "load_wallet_from_address")?;
+        // load_wallet_from_address: the only panic site allowed is the `expect` on the EVM network read from the
+        // environment (configuration); the private key read from the wallet file must be mapped to an error
+        let mut env_expect = false;
+        let mut key_checked = None;
+        for st in &f.block.stmts {
+            if let syn::Stmt::Local(l) = st {
+                if let Some(init) = &l.init {
+                    let t = toks(&init.expr);
+                    let unwrapped = t.contains(".expect(") || t.contains(".unwrap()");
+                    if t.contains("get_evm_network_from_env()") {
+                        env_expect = unwrapped;
+                    }
+                    if t.contains("Wallet::new_from_private_key(") {
+                        key_checked = Some(!unwrapped);
+                    }
+                }
+            }
+        }
+        let key_checked = key_checked.ok_or("load_wallet_from_address: no `let … = Wallet::new_from_private_key(..)` statement")?;
+        s.push_str(&format!("/-- `load_wallet_from_address`: panic sites; the EVM network from the environment is `expect`ed; the result of `Wallet::new_from_private_key` on the file content is mapped to an error (not unwrapped) -/\ndef walletLoadFromAddressSites : List String := {}\ndef loadWalletEnvExpected : Bool := {}\ndef loadWalletKeyChecked : Bool := {}\n\n", lean_strs(&sites(&f.block, &no_env, false, false)), lean_bool(env_expect), lean_bool(key_checked)));
+    }
+    // --- ant-logging: LogFormat / LogOutputDest parse_from_str
+    {
+        let rel = "ant-logging/src/lib.rs";
+        let file = parse_file(&repo.join(rel))?;
+        struct StrArms(Vec<String>);
+        impl<'ast> Visit<'ast> for StrArms {
+            fn visit_arm(&mut self, a: &'ast syn::Arm) {
+                if let syn::Pat::Lit(l) = &a.pat {
+                    if let syn::Lit::Str(st) = &l.lit {
+                        self.0.push(st.value());
+                    }
+                }
+                syn::visit::visit_arm(self, a);
+            }
+        }
+        for (ty, def, sdef) in [("LogFormat", "logFormatLiterals", "logFormatSites"), ("LogOutputDest", "logDestLiterals", "logDestSites")] {
+            let f = impl_fn(&file, ty, None, "parse_from_str")?;
+            let mut arms = StrArms(vec![]);
+            arms.visit_block(&f.block);
+            if arms.0.is_empty() {
+                return Err(format!("{ty}::parse_from_str: no string literal arms"));
+            }
+            s.push_str(&format!("/-- {rel} `{ty}::parse_from_str`: the literals matched -/\ndef {def} : List String := {}\ndef {sdef} : List String := {}\n", lean_strs(&arms.0), lean_strs(&sites(&f.block, &no_env, false, false))));
+        }
+        s.push('\n');
+    }
     // --- RecordHeader
     {
         let rel = "ant-protocol/src/storage/header.rs";
